@@ -41,6 +41,13 @@ func violation(t tb, key, what string, replay any) bool {
 	if c.IsKnown(key, what) {
 		return true
 	}
+	if os.Getenv("VERIF_KEEPGOING") != "" { // development aid: list every distinct class, never used by registered commands
+		if !seenKeys[key] {
+			seenKeys[key] = true
+			fmt.Printf("KEEPGOING violation key=%s :: %s\n", key, what)
+		}
+		return true
+	}
 	p := c.RecordViolation(key, what, replay)
 	t.Fatalf("VIOLATION key=%s: %s (replay written to %s)", key, what, p)
 	return false
@@ -60,6 +67,8 @@ func setRapidChecks(n int) {
 		panic(err)
 	}
 }
+
+var seenKeys = map[string]bool{}
 
 var scratchSeq int64
 
